@@ -75,7 +75,7 @@ def run(r):
         "uiua's own Node equality (hash based) and Value equality are used to compare re-read trees and run results",
     ]
     r.assumptions += [
-        "C17_framing_roundtrip: every written line is newline-free, not blank and does not end in white space (sections_wf), and no section body contains the marker word that ends it (no_marker_in_bodies) - the second premise is NOT met by all programs: C17_framing_refuted",
+        "C17_framing_roundtrip: every written line is newline-free, not blank, does not end in white space, the first line of a trimmed section does not start with white space (sections_wf) and every written line contains a character other than A-Z and blank (written_shape); both are checked on the real to_uasm output of every generated assembly by the tie",
         "C17_value_json_roundtrip: values satisfy length(data) = product(shape), strings are not one of the reserved spellings NaN/W/empty/tomb/inf/-inf, complex parts are finite (plain_json); labels and map keys only at the top level",
         "run behaviour of the re-read assembly is compared on finitely many run-time arguments per program (search), not proved for all arguments",
     ]
@@ -98,7 +98,7 @@ def run(r):
                 "Eval vm_compute in (map (fun t => summary (from_uasm t)) cases).\n" % body)
         jobs.append(("c17_frame_%d" % si, text))
     results = coq_eval_many(jobs, timeout=900)
-    mism, kinds, outcomes, unparseable = [], {}, {"ok": 0, "no-marker": 0, "other-error": 0, "panic": 0}, 0
+    mism, kinds, outcomes, unparseable, premises_checked = [], {}, {"ok": 0, "no-marker": 0, "other-error": 0, "panic": 0}, 0, 0
     for si, (rc2, o) in enumerate(results):
         ch = cases[si * shard:(si + 1) * shard]
         sums = coq_lists(o)
@@ -115,6 +115,10 @@ def run(r):
                 good = s[0] == 1 and all(w is None or w == g for w, g in zip(want, s))
                 if not good:
                     mism.append((c, s, "counts"))
+                elif c["kind"] == "real":
+                    premises_checked += 1
+                    if s[-1] != 1:     # sections_wf && written_shape on the lines a real to_uasm wrote
+                        mism.append((c, s, "premise sections_wf/written_shape does not hold of a real assembly"))
             elif "err" in oc and oc["err"] in NO_MSGS:
                 outcomes["no-marker"] += 1
                 if s[:2] != [0, NO_MSGS.index(oc["err"])]:
@@ -126,7 +130,8 @@ def run(r):
                 else:
                     unparseable += 1   # the split succeeded, a per-line parser rejected a line: outside the framing model
     r.coverage["tie_framing"] = {"kind": "C", "cases": len(cases), "mismatches": len(mism), "kinds": kinds, "outcomes": outcomes,
-                                 "split-ok-but-line-rejected (not compared)": unparseable}
+                                 "split-ok-but-line-rejected (not compared)": unparseable,
+                                 "real assemblies on which the premises of C17_framing_roundtrip were checked": premises_checked}
     r.log("tie framing: %d texts, %d mismatches, outcomes %s" % (len(cases), len(mism), outcomes))
     for c in cases[:1]:
         r.sample({"tie": "framing", "src": c["src"][:120], "kind": c["kind"], "outcome": c["outcome"]})
@@ -163,7 +168,7 @@ def run(r):
         seen.add(key)
         r.violation(key, "%s: program %r" % (v["what"], v["src"][:200]),
                     {"program": v["src"], "name": v["name"], "detail": v["detail"], "cmd": "VERIF_SEED=%d c17 search %d; c17 rt PROGRAM" % (r.seed, m)},
-                    theorem="C17_framing_roundtrip" if key.startswith("uasm-marker") else "C17_value_json_roundtrip")
+                    theorem="C17_framing_roundtrip" if key.startswith("uasm-marker") or key.startswith("uasm-read") else "C17_value_json_roundtrip")
     for v in viols[:2]:
         r.sample({"search": v["violation"], "program": v["src"][:120], "detail": v["detail"][:200]})
     r.coverage["evaluations"] = r.coverage.get("evaluations", 0) + len(cases) + s["runs"]
